@@ -100,7 +100,7 @@ Inductive xerr :=
 | XNoParent       (* ENOENT / ENOTDIR from the kernel *)
 | XExists         (* EISDIR, ENOTDIR, ENOTEMPTY ... an object of the wrong kind is in the way *)
 | XAbsLink        (* absolute link target: not modelled (needs the absolute base) *)
-| XWriteThrough   (* write through an existing symlink: C11's territory, not modelled *)
+| XWriteThrough   (* (unused since writeFile replaces an existing symlink instead of writing through it) *)
 | XDigest         (* content digest mismatch *)
 | XCodec.         (* gzip / tar decoding failed *)
 
@@ -230,7 +230,11 @@ Definition extract_entry (pre : path) (umask : N) (preserve : bool) (f : fs) (e 
               let f1 := fs_set f rel (NFile c m0) in
               Ok (if preserve then fs_set f1 rel (NFile c (chmod_mode (e_mode e))) else f1)
           | Some (NDir _) => Err XExists
-          | Some (NLink _) => Err XWriteThrough
+          | Some (NLink _) =>      (* writeFile: removeSymlink, then created afresh *)
+              if parent_is_dir f rel then
+                let f1 := fs_set f rel (NFile c (create_mode file_create_bits umask (e_mode e))) in
+                Ok (if preserve then fs_set f1 rel (NFile c (chmod_mode (e_mode e))) else f1)
+              else Err XNoParent
           end
       | EDir =>
           match mkdir_all umask (e_mode e) f (rev rel) with
